@@ -251,6 +251,40 @@ def wrap_paths(rng, p):
     return T('arr', f=p)
 
 
+SUGAR = [
+    # shorthand, written so that TLC judges the real run against the EXPANSION the manual gives (the harness
+    # normalises: missing else = else ., elif chains, {a} = {a: .a}, {$x} = {x: $x}, f? = try f)
+    '.a.b', '."a"', '.["a"]', '.a[]', '.a?', '.a[]?', '..', '{a}', '{a, b}', '1 as $x | {$x}', '{"a\\(1,2)": 3}', '{(.a): 1}', '{("a","b"): (1,2)}',
+    '{if: 1} | .if', '{and: 1, or: 2} | .and, .or', 'if .a then 1 elif .b then 2 else 3 end', 'if .a then 1 end', 'if .a then 1 elif .b then 2 end',
+    '"x\\(.a)y\\(.b)"', '@json "v=\\(.a)"', '@text "v=\\(.a)"', 'def f($x): $x + 1; f(1, 2)', 'def f(g; $x): [g, $x]; f(.a; 1, 2)',
+    '. as [$a, $b] | [$b, $a]', '. as {a: $x} | $x', '. as {$a} | $a', '. as {a: [$x, $y]} | [$x, $y]', '. as {("a","b"): $x} | $x',
+    'reduce (1,2,3) as $x (0; . + $x)', 'foreach (1,2,3) as $x (0; . + $x)', 'foreach (1,2,3) as $x (0; . + $x; [$x, .])',
+    'try error("x")', 'try error("x") catch .', '(1, error("x"), 2)?', '[.[]?]', '-(1,2)', '-.a', 'try -.a? catch 7', '.a?.b', '.[1:][0]', '.a as $x | $x',
+    '1, 2 as $x | [$x]', '0 as $x | 1 | $x', 'label $x | 1, break $x, 2', '[limit(3; repeat(0))]', '.a // "d"', '.a = 1', '.a |= . + 1', '.a += 1',
+    '[.[] | . * 2]', 'map(. + 1)?', 'to_entries', 'with_entries(.value |= . + 1)?', 'path(..)', '[paths]', 'del(.a)', 'keys', 'length', 'add', 'any', 'all',
+    '.[0]', '.[-1]', '.[1:]', '.[:1]', 'first', 'last', 'nth(1)', 'has("a")', 'select(.a)', 'recurse', 'tostring', 'tojson', 'type', 'not', 'isempty(.[]?)',
+]
+
+
+def sugar_cases(path):
+    inputs = [V_null(), V_obj([(V_str('a'), V_int(1)), (V_str('b'), V_arr([V_int(2), V_null()]))]), V_arr([V_int(1), V_arr([V_int(2)]), V_str('a')]),
+              V_obj([(V_str('a'), V_str('b')), (V_str('b'), V_int(0))]), V_int(3), V_str('ab')]
+    with open(path, 'w') as f:
+        k = 0
+        for t in SUGAR:
+            for i in inputs:
+                k += 1
+                f.write(json.dumps({'id': f'sugar-{k}', 'text': t.replace('\\\\', '\\'), 'input': i}) + '\n')
+
+
+REJECTS = ['', '1 +', '+ 1', '()', '{(1)}', '{a: 1 2}', 'reduce . as $x (1)', 'foreach . as $x (1; 2; 3; 4)', 'reduce . as $x (1; 2; 3)', 'if 1 then 2', 'if 1 else 2 end',
+           '. as [$x;] | 1', '. as | 1', 'def f: 1', 'def f(): 1; f', 'def f: 1; ', ')', '(', '1 2', '.[', '.[1', '[1', '{', 'try', 'try catch 1', 'label | 1', 'label $x 1',
+           'break', 'break x', '$', '1 as x | 1', '1 as $x', '.a.', '.."a"', 'f(', 'f(1;)', 'f(;1)', '1 ? ? +', '1 || 2', '1 && 2', '1 === 2', '1 =! 2', '@', '"abc', '"\\q"',
+           '1 | | 2', '1 , , 2', 'a::', '::a', 'import "a" as $x; 1 2', 'else', 'then', 'end', 'elif', 'catch', 'as', 'and', 'or 1', '1 and', 'not 1', '.a b', '$x $y',
+           'undefined_filter_xyz', '$undefined_var', 'break $undefined_label', 'f(1)', 'def f(g): g; f', 'def f: 1; f(2)', 'mod::f', '1 as $x | $y', 'label $a | break $b',
+           'reduce . as $x (0; .) | $x', 'def f($a): 1; $a', '{$undefined_var}', '. as [$a] | $b']
+
+
 def write_cases(path, seed, n, profile='core'):
     rng = random.Random(seed * 7919 + zlib.crc32(profile.encode()) % 1000)
     g = Gen(rng, profile)
